@@ -28,7 +28,19 @@ from pathlib import Path
 VERIF = Path(__file__).resolve().parent.parent
 REPO = Path(os.environ.get("VERIF_REPO", "/repo"))
 COQ = VERIF / "coq"
+OUT = VERIF
 PKG = REPO / "python" / "lsst" / "daf" / "butler"
+if REPO != Path("/repo"):
+    # Isolated mode for testing the machinery against a mutated copy of the repository (seeded changes,
+    # scratch worktrees): private Coq build tree and private evidence/replay directories, so that
+    # concurrent runs against different trees never share regenerated files.
+    _tag = hashlib.md5(str(REPO).encode()).hexdigest()[:10]
+    COQ = Path(f"/var/tmp/verif-alt-{_tag}/coq")
+    OUT = Path(f"/var/tmp/verif-alt-{_tag}")
+    COQ.mkdir(parents=True, exist_ok=True)
+    subprocess.run(["rsync", "-a", "--exclude", "Cases/", "--exclude", "Gen/*", "--exclude", ".lock",
+                    str(VERIF / "coq") + "/", str(COQ) + "/"], check=False)
+    (COQ / "Gen").mkdir(exist_ok=True)
 NCPU = os.cpu_count() or 4
 
 FORBIDDEN = re.compile(
@@ -389,8 +401,8 @@ class Ctx:
 
     def finish(self) -> int:
         self.cov["distinct_nontrivial"] = len(self._nontrivial)
-        rep_dir = VERIF / "replays"
-        rep_dir.mkdir(exist_ok=True)
+        rep_dir = OUT / "replays"
+        rep_dir.mkdir(parents=True, exist_ok=True)
         rc = 0
         lines = []
         head = repo_head()
@@ -430,8 +442,8 @@ class Ctx:
             "violations": len({s for s, _ in self.oracle_failures}) + (1 if (self.broken and not self.oracle_failures) else 0),
             "known_findings_reported": sorted(self.known_printed),
         }
-        (VERIF / "evidence").mkdir(exist_ok=True)
-        (VERIF / "evidence" / f"{self.pid}.json").write_text(json.dumps(ev, indent=1, default=str) + "\n")
+        (OUT / "evidence").mkdir(exist_ok=True)
+        (OUT / "evidence" / f"{self.pid}.json").write_text(json.dumps(ev, indent=1, default=str) + "\n")
         shutil.rmtree(self.scratch, ignore_errors=True)
         try:
             scratch_root().rmdir()
@@ -446,6 +458,8 @@ class Ctx:
 
 def repo_head():
     rc, h = sh(["git", "-C", str(REPO), "rev-parse", "HEAD"])
+    if rc != 0:
+        h = f"(not a git tree: {REPO})"
     rc2, d = sh(["git", "-C", str(REPO), "diff", "--stat"])
     return {"head": h.strip(), "diff_stat": d.strip()[-600:]}
 
